@@ -84,6 +84,8 @@ class StateMachine(metaclass=StateMachineMetaclass):
 
         self._listeners: List[Any] = []
         """Listeners that provides attributes to be used as callbacks."""
+        self._listener_groups: List[List[Any]] = []
+        """The constructor's listeners, then the listeners of each ``add_listener`` call."""
 
         if self._abstract:
             raise InvalidDefinition(_("There are no states or transitions."))
@@ -143,6 +145,7 @@ class StateMachine(metaclass=StateMachineMetaclass):
 
     def __setstate__(self, state):
         listeners = state.pop("_listeners")
+        groups = state.pop("_listener_groups", None) or [list(listeners)]
         rtc = state.pop("_rtc")
         initial_pending = state.pop("_initial_pending", False)
         self.__dict__.update(state)
@@ -150,9 +153,14 @@ class StateMachine(metaclass=StateMachineMetaclass):
         self._states_for_instance: Dict[State, State] = {}
 
         self._listeners: List[Any] = []
+        self._listener_groups: List[List[Any]] = []
 
-        self._register_callbacks(list(listeners))
+        # the listeners are attached again the way they were attached to the original: the
+        # constructor's together with machine and model, then one `add_listener` call at a time
+        self._register_callbacks(list(groups[0]))
         self._engine = self._get_engine(rtc)
+        for group in groups[1:]:
+            self.add_listener(*group)
         if initial_pending:
             self._engine.start()
 
@@ -194,6 +202,8 @@ class StateMachine(metaclass=StateMachineMetaclass):
     def _remember_listeners(self, listeners):
         # listeners are remembered by identity: distinct objects that compare equal are distinct
         # listeners, and a listener does not have to be hashable
+        listeners = list(listeners)
+        self._listener_groups.append(listeners)
         for listener in listeners:
             if not any(listener is known for known in self._listeners):
                 self._listeners.append(listener)
